@@ -3,6 +3,7 @@
 package pipesim
 
 import (
+	"errors"
 	"fmt"
 	"net/url"
 	"os"
@@ -16,6 +17,7 @@ import (
 	"gopkg.in/yaml.v3"
 
 	"github.com/dadrus/heimdall/internal/truststore"
+	rconfig "github.com/dadrus/heimdall/internal/rules/config"
 	"github.com/dadrus/heimdall/internal/verifsim/simcore"
 	"github.com/dadrus/heimdall/internal/verifsim/simkeys"
 	"github.com/dadrus/heimdall/internal/verifsim/simnet"
@@ -325,6 +327,11 @@ func robustRuleSets(r *simcore.Run, w *worlds) {
 		acceptedBefore := accepted
 		guarded(r, "loading a rule set ("+how+")", func() {
 			rs, err := world.ParseRuleSetEnv("fuzz", doc, envVars)
+			if err != nil && envVars && strings.Contains(doc, "${HOME:0:-1}") && errors.Is(err, rconfig.ErrEmptyRuleSet) {
+				// the providers take "empty rule set" for the removal of the source and unload what was loaded from it
+				r.Fail("previous-state-lost", "unusable-expansion-taken-for-an-empty-rule-set", "a rule set with an expansion the substitution cannot evaluate (%s) was reported as an empty rule set, which the providers treat as removal of the source", how)
+				return
+			}
 			if err != nil {
 				r.Logf("  parser rejected it")
 				r.Count("ruleset-rejected-by-parser", 1)
